@@ -51,6 +51,12 @@ ASSUMPTIONS = [
     "synchronisation events inserted at the start of a statement are only required to be silent, "
     "and notes below 110 Hz are not generated (hardware clamp)",
     "a string variable in a numeric position: Type mismatch (manual)",
+    "blanks between commands and between a command letter, its accidental, its number and its dots "
+    "are generated and asserted to be ignored (ubiquitous in real MML; GW-BASIC ignores blanks); "
+    "blanks BETWEEN THE DIGITS of one number (T2 55, N1 2) are generated in 1 case of 5 but NOT "
+    "asserted to be accepted: the statement and docs/source/reference.html (PLAY, DRAW, MML "
+    "parameters) say nothing about them. There, Illegal function call is accepted (label "
+    "blank-inside-number-rejected); if the statement is accepted its notes must be the right ones",
 ]
 TECHNIQUE = ("recording audio queue via Session.attach; structured-command generator with "
              "independent renderer and reference MML interpreter (exact rationals); exhaustive "
@@ -231,7 +237,9 @@ def emit_note(out, voice, index, D, fill):
 class Renderer(object):
     """Deterministic pseudo-random rendering driven by the integers in case['style']."""
 
-    def __init__(self, style, numvars):
+    def __init__(self, style, numvars, digitblanks=False):
+        self.digitblanks = digitblanks
+        self.split_used = False
         self.style = list(style) or [0]
         self.i = 0
         self.numvars = numvars      # value -> variable name for numbers passed by reference
@@ -271,7 +279,15 @@ class Renderer(object):
             if self.pick(7) == 0 and v >= 0:
                 s = '0' + s
             self.blank()
-            self.text(s)
+            self.text(self.digits(s))
+
+    def digits(self, s):
+        """Optionally put blanks BETWEEN the digits of a number (unasserted region, see
+        ASSUMPTIONS): only in cases generated with digitblanks."""
+        if self.digitblanks and len(s) > 1 and s.isdigit() and self.pick(2) == 0:
+            self.split_used = True
+            return (' ' * (1 + self.pick(2))).join(s)
+        return s
 
     def cmds(self, cmds, substyle):
         for j, c in enumerate(cmds):
@@ -290,7 +306,7 @@ class Renderer(object):
                     self.text(c['acc'])
                 if c.get('len') is not None:
                     self.blank()
-                    self.text(str(c['len']))
+                    self.text(self.digits(str(c['len'])))
                 for _ in range(c.get('dots', 0)):
                     self.blank()
                     self.text('.')
@@ -395,9 +411,11 @@ def check_case(case):
                 exp.append(out)
                 scan_summary(cmds, subs, summary)
             texts = []
+            split_digits = False
             for v, cmds in enumerate(voices):
-                r = Renderer([x + 3 * v for x in style], NUMVARS)
+                r = Renderer([x + 3 * v for x in style], NUMVARS, bool(case.get('digitblanks')))
                 texts.append(expr_of(r.cmds(cmds, substyle)))
+                split_digits = split_digits or r.split_used
             stmt_text = 'PLAY ' + ','.join(texts)
             n0 = len(audio.items)
             o = sess.execute(stmt_text.encode())
@@ -412,6 +430,13 @@ def check_case(case):
                 return res
             got = [e.params for e in audio.items[n0:] if e.event_type == signals.AUDIO_TONE]
             err = o.err
+            if split_digits:
+                res.label('blank-inside-number')
+                if err == 5:
+                    # neither the statement nor the manual says whether a blank may split a number:
+                    # rejection is accepted (the case ends here); acceptance must give the right notes
+                    res.label('blank-inside-number-rejected')
+                    break
             if tandy:
                 if any(errs):
                     # interleaved parsing: how far the other voices got is not modelled
@@ -590,7 +615,7 @@ def strat_case():
                     st.tuples(st.sampled_from(BAD_TEXTS), st.integers(0, 40)))
     style = st.lists(st.integers(0, 1000), min_size=1, max_size=8)
 
-    def build(plays, s1, s2, bad_, style_, ss1, ss2, runs):
+    def build(plays, s1, s2, bad_, style_, ss1, ss2, runs, db=False):
         plays = [list(p) for p in plays]
         # runs of < or > past both ends of the octave range
         if runs is not None:
@@ -604,12 +629,16 @@ def strat_case():
             pos = (at // 3) % (len(p) + 1)
             p.insert(pos, {'c': 'bad', 'text': text, 'code': code})
         plays[0] = [{'c': 'M', 'm': 'B'}] + plays[0]
-        return {'plays': plays, 'subs': {'S1$': s1, 'S2$': s2},
+        case = {'plays': plays, 'subs': {'S1$': s1, 'S2$': s2},
                 'substyle': {'S1$': ss1, 'S2$': ss2}, 'style': style_}
+        if db:
+            case['digitblanks'] = True
+        return case
     return st.builds(build, st.lists(body, min_size=1, max_size=3), sub, sub, bad, style,
                      st.sampled_from(['name', 'vp']), st.sampled_from(['name', 'vp']),
                      st.one_of(st.none(), st.tuples(st.sampled_from(['<', '>']), st.integers(3, 9),
-                                                    st.integers(0, 60))))
+                                                    st.integers(0, 60))),
+                     st.sampled_from([False, False, False, False, True]))
 
 
 def strat_tandy():
@@ -715,5 +744,8 @@ KILLS = [
     "sound.play_: pause emitted with the note fill -> pause.duration",
     "sound.play_: X substring inserted after the rest of the string -> events.extra/missing, "
     "tone.frequency, tone.duration (strings)",
+    "NOT ASSERTED: mlparser._parse_literal stopping at a blank inside a number (T2 55) - the "
+    "statement and the manual are silent on blanks between digits; such strings are generated and "
+    "labelled (blank-inside-number / -rejected), a rejection is accepted",
     "sound.play_: dots after N ignored -> tone.duration, pause.duration (tables and strings)",
 ]
